@@ -111,6 +111,15 @@ LEVEL_TEXT = ("Theorems (Coq, unbounded, on an abstract number type with only th
               "between Set_Prefactor / Multiply calls, on copies and in sessions): the harness reads the file back and S4 compares every row AS TEXT (six significant digits, what the library "
               "writes) with the k-th point of Linear_Space over the domain and with the prefactor of the history times the value of a new object at that point, and with a fresh object's value; the model predicts "
               "the row count, the points and the values (the text formatting itself is not modelled: a deviation below the sixth digit of a file entry is invisible in the file). "
+              "Integrate and the 2-D value made explicit (coq/C09_Proofs_Integ.v, unbounded over histories, from the order laws alone): C09_integrate_after_history — after ANY history "
+              "Integrate(x_1, x_2) with both limits in the domain locates THE segments of the ordered limits and returns sign * (the summation loop's value for those segments, the ordered "
+              "limits and the prefactor of the Set_Prefactor / Multiply calls alone), sign = -1 exactly when x_1 > x_2; C09_integrate_reversed_after_history — for a < b, Integrate(a, b) after "
+              "any history and Integrate(b, a) after any history with the same prefactor calls (e.g. later on the same object) return 1 * v and (-1) * v for the SAME loop value v and the same "
+              "located segments: no value obtained for one order of the limits is handed out for the other (whole-domain ranges included); C09_interpolate_2d_after_history — after any 2-D "
+              "history Interpolate(x, y) is the prefactor of the history times the bilinear expression on THE cell of (x, y), never on a remembered cell. The loop value itself (the Steffen "
+              "antiderivatives) stays a parameter here (C01/C08) and the -1 * v = -(1 * v) step is IEEE arithmetic, not an order law: S4 checks it (Integrate in both orders against fresh objects). "
+              "The generator asks, inside histories, one range repeatedly in both orders of its limits (whole domain with limits bit-equal to the domain ends, knot to knot, tolerated zone) and, for "
+              "tables built with unit arguments, makes the FIRST query of a fresh object (or of a copy of a never-used object) bit-equal to an entry of the RAW constructor argument (class raw-argument). "
               "NaN arguments: Locate tests std::isnan first and exits; C09_nan_argument_exits proves Exit in every state, and the history theorems "
               "hold for NaN arguments as well (both objects exit).")
 LEVEL_NOTE = ("Coq 8.16.1 kernel; all C09 theorems are axiom-free (closed under the global context); premises carried by the theorems: OrdLaws (strict total "
@@ -442,19 +451,60 @@ def save_count(rng, n):
     return min(150, rng.choice(SAVE_COUNTS + [n, n, n + 1, max(2, n - 1), 2 * n - 1, 2 * n - 1, rng.randint(2, 60)]))
 
 
-def gen_history(rng, xs, nops, with_exit, extra_pu=0.0, index_only=False, save=0.02):
-    """xs: the table AFTER the unit scaling.  extra_pu: additional rate of Set_Prefactor / Multiply calls.
+def raw_pool(xs, raw):
+    """the values of the RAW constructor argument (before the unit scaling) that are legitimate arguments of the scaled table, its first and
+    last entries first"""
+    if not raw: return []
+    out = []
+    for v in [raw[0], raw[-1]] + list(raw[1:-1][:40]):
+        if zone(xs, v) == "in" and v not in out: out.append(v)
+    return out
+
+
+def gen_history(rng, xs, nops, with_exit, extra_pu=0.0, index_only=False, save=0.02, raw=None):
+    """xs: the table AFTER the unit scaling.  raw: the constructor argument BEFORE it (those of its entries that lie in the scaled domain are
+    asked verbatim: as the very first query on the fresh object, and now and then later).  extra_pu: additional rate of Set_Prefactor / Multiply calls.
     index_only: only the calls whose answers do not involve the spline coefficients (Locate, Global_*, domain, prefactor calls, copies):
     for tables on scales where the Steffen coefficients leave the double range"""
     n = len(xs); ops = []; cur = rng.randrange(n - 1)
     pool = []                      # arguments issued so far: repeated verbatim later in the history
+    rawp = raw_pool(xs, raw) if raw is not None and list(raw) != list(xs) else []
+    def raw_value(): return rawp[0] if rng.random() < 0.5 else (rawp[min(1, len(rawp) - 1)] if rng.random() < 0.5 else rng.choice(rawp))
     def arg(k):
-        x = point_in(rng, xs, k)
+        x = raw_value() if rawp and rng.random() < 0.03 else point_in(rng, xs, k)
         if len(pool) < 64: pool.append(x)
         else: pool[rng.randrange(64)] = x
         return x
+    if rawp and rng.random() < 0.7:
+        # the first query on the fresh object (possibly after copies of the never-used object) is bit-equal to an entry of the raw argument
+        if rng.random() < 0.25: ops.append((rng.choice(["C", "A"]), []))
+        x = raw_value(); cur = ref_index(xs, x)
+        ops.append((rng.choice(["I", "I", "L", "O"]) if not index_only else "L", [x]))
     while len(ops) < nops:
         if extra_pu and rng.random() < extra_pu: ops.append(prefactor_op(rng)); continue
+        if not index_only and rng.random() < 0.04:
+            # one range asked repeatedly, in both orders of its limits, with other calls in between: the whole domain (limits bit-equal to the
+            # domain ends), knot to knot, an end to an interior point, the tolerated zone, any pair
+            r = rng.random(); whole = n <= 300           # the model's spline evaluation is quadratic in the span
+            if r < 0.45 and whole: a, b = xs[0], xs[-1]
+            elif r < 0.60:
+                k1 = rng.randrange(n); k2 = min(n - 1, max(0, k1 + rng.choice([1, 1, 2, 5, -1, -3, 40, -40]))); a, b = xs[k1], xs[k2]
+            elif r < 0.75: k2 = rng.randrange(n - 1) if n <= 300 else rng.choice([rng.randint(0, 40), n - 2 - rng.randint(0, 40)]); a, b = (xs[0] if k2 < n // 2 or n <= 300 and rng.random() < 0.5 else xs[-1]), arg(k2)
+            elif r < 0.85 and whole: a, b = edge_point(rng, xs), edge_point(rng, xs)
+            else:
+                k1 = cur; a, b = arg(k1), arg(min(n - 2, max(0, k1 + rng.randint(-6, 6))))
+            if rng.random() < 0.5: a, b = b, a
+            for i in range(rng.randint(2, 4)):
+                ops.append(("G", [a, b]))
+                rr = rng.random()
+                if rr < 0.20: ops.append(prefactor_op(rng))
+                elif rr < 0.40: ops.append((rng.choice(["I", "L", "d", "O"]), [arg(rng.randrange(n - 1))]))
+                elif rr < 0.50: x2 = arg(rng.randrange(n - 1) if n <= 300 else cur); ops.append(("G", [a, x2] if rng.random() < 0.5 else [x2, b]))
+                elif rr < 0.57: ops.append((rng.choice(["C", "A", "R"]), []))
+                elif rr < 0.62: ops.append((rng.choice(["gm", "gM"]), []))
+                if rng.random() < 0.7: a, b = b, a
+            j = ref_index(xs, a if a > b else b); cur = j if j is not None else cur
+            continue
         if save and not index_only and rng.random() < save:                               # Save_Function: the file is an output; it leaves the cache at the upper end
             k = save_count(rng, n)
             if save_ok(xs, k):
@@ -743,16 +793,30 @@ def case_2d_collapse(rng, n, ny):
     return Case(line, ("2d", "unit-collapse", "exit-in-constructor"))
 
 
-def pick_ctor(rng, kinds, ndims, ok, units=None):
+def aimed_unit(rng, raw):
+    """a unit argument != 1 under which entries of the raw argument are again legitimate arguments of the scaled table (the scaled domain
+    overlaps the raw one): the ratio of two entries (a raw entry then coincides with a scaled knot, up to rounding), or a moderate factor"""
+    r = rng.random()
+    if r < 0.5:
+        for _ in range(4):
+            a, b = rng.choice(raw), rng.choice(raw)
+            if a != b and a != 0.0 and b != 0.0 and a / b > 0 and math.isfinite(a / b): return a / b * rng.choice([1.0, 1.0, rng.uniform(0.7, 1.4)])
+    if r < 0.8: return rng.choice([0.3, 0.5, 2.0, 3.0, 0.1, 0.75, 1.25, 10.0])
+    return rng.uniform(0.05, 1.0) if rng.random() < 0.5 else rng.uniform(1.0, 20.0)
+
+
+def pick_ctor(rng, kinds, ndims, ok, units=None, aim=None):
     """returns (ctor text, dims): overload from `kinds`, argc explicit unit arguments; ok(dims) validates the scaled tables.
-    units: None = mostly the plain call; 'all' = every unit argument given"""
+    units: None = mostly the plain call; 'all' = every unit argument given; 'aimed' = as 'all'/'some', with the unit arguments of the axes
+    in `aim` (list of raw arguments or None per dimension) chosen by aimed_unit"""
     for attempt in range(8):
         kind = rng.choice(kinds)
         if units == "all": argc = ndims
         elif units == "some": argc = rng.randint(1, ndims)
+        elif units == "aimed": argc = rng.randint(max(1, max(i + 1 for i, a in enumerate(aim) if a is not None) - (1 if rng.random() < 0.2 else 0)), ndims)
         else: argc = rng.choice([0] * 5 + list(range(1, ndims + 1)))
         wide = 60 if attempt < 3 else 6
-        given = [unit_arg(rng, wide) for _ in range(argc)]
+        given = [aimed_unit(rng, aim[i]) if units == "aimed" and aim[i] is not None and rng.random() < 0.9 else unit_arg(rng, wide) for i in range(argc)]
         dims = given + [-1.0] * (ndims - argc)
         if ok(dims): return f"{kind}{argc}" + "".join(" " + hx(v) for v in given), dims
     return f"{kinds[0]}0", [-1.0] * ndims
@@ -760,9 +824,9 @@ def pick_ctor(rng, kinds, ndims, ok, units=None):
 
 def case_1d(rng, n, nops, with_exit=False, tags=(), units=None, extra_pu=0.0, save=0.02):
     xs0, ys0 = make_table(rng, n)
-    ctor, dims = pick_ctor(rng, ["v", "v", "r"], 2, lambda d: grid_ok(scaled(d[0], xs0)) and values_ok(scaled(d[0], xs0), scaled(d[1], ys0)), units)
+    ctor, dims = pick_ctor(rng, ["v", "v", "r"], 2, lambda d: grid_ok(scaled(d[0], xs0)) and values_ok(scaled(d[0], xs0), scaled(d[1], ys0)), units, aim=[xs0, None])
     xs = scaled(dims[0], xs0)
-    ops = gen_history(rng, xs, nops, with_exit, extra_pu, save=save)
+    ops = gen_history(rng, xs, nops, with_exit, extra_pu, save=save, raw=xs0)
     line = f"h1 {ctor} {flist(xs0)} {flist(ys0)} {len(ops)} " + " ".join(op_text(o, a) for o, a in ops)
     tg = ("1d",) + tuple(tags) + (("exit-last",) if with_exit else ())
     if dims[0] > 0 or dims[1] > 0: tg += ("units",)
@@ -788,9 +852,9 @@ def case_2d(rng, nx, ny, nops, with_exit=False, units=None, extra_pu=0.04, save=
     def ok(d):
         fm = max(abs(v) for v in scaled(d[2], tab))
         return grid_ok(scaled(d[0], xs0)) and grid_ok(scaled(d[1], ys0)) and math.isfinite(fm) and fm < 1e150
-    ctor, dims = pick_ctor(rng, kinds, 3, ok, units)
+    ctor, dims = pick_ctor(rng, kinds, 3, ok, units, aim=[xs0, ys0, None])
     xs = scaled(dims[0], xs0); ys = scaled(dims[1], ys0)
-    hx_ = gen_history(rng, xs, nops, False); hy_ = gen_history(rng, ys, nops, False)
+    hx_ = gen_history(rng, xs, nops, False, raw=xs0); hy_ = gen_history(rng, ys, nops, False, raw=ys0)
     ax = [a[0] for o, a in hx_ if o in ("L", "I", "O", "D", "d", "G", "m", "M")]; ay = [a[0] for o, a in hy_ if o in ("L", "I", "O", "D", "d", "G", "m", "M")]
     ops = []
     for k in range(min(len(ax), len(ay))):
@@ -813,6 +877,7 @@ def case_2d(rng, nx, ny, nops, with_exit=False, units=None, extra_pu=0.04, save=
     line = f"h2 {ctor} {flist(xs0)} {flist(ys0)} " + " ".join(hx(v) for v in tab) + f" {len(ops)} " + " ".join(op_text(o, a) for o, a in ops)
     tg = ("2d",) + (("exit-last",) if with_exit else ())
     if any(d > 0 for d in dims): tg += ("units",)
+    if units == "aimed": tg += ("raw-argument",)
     return Case(line, tg)
 
 
@@ -1011,6 +1076,12 @@ def generate(rng, tier):
         cs.append(case_1d(rng, rng.choice(sizes_small), rng.choice([8, 15, 25, 40]), units=rng.choice(["all", "all", "some"]), extra_pu=0.12, tags=("ctor-units",)))
     for _ in range(150 if big else 24):
         cs.append(case_2d(rng, rng.choice([3, 4, 7, 20]), rng.choice([3, 5, 9, 25]), rng.choice([10, 30, 60]), units=rng.choice(["all", "some"]), extra_pu=0.12))
+    # unit arguments under which the RAW constructor arguments are again legitimate arguments: first queries on fresh objects (and on copies of
+    # never-used objects) at x_val[0], x_val.back(), y_val[0], ... taken verbatim from the constructor arguments
+    for _ in range(300 if big else 40):
+        cs.append(case_1d(rng, rng.choice(sizes_small), rng.choice([6, 12, 25]), units="aimed", extra_pu=0.05, tags=("raw-argument",)))
+    for _ in range(300 if big else 50):
+        cs.append(case_2d(rng, rng.choice([3, 4, 7, 8, 20]), rng.choice([3, 5, 9, 25]), rng.choice([6, 10, 30]), units="aimed", extra_pu=0.03))
     # Save_Function: the file written is an output of the object; histories rich in Set_Prefactor / Multiply with files written in between
     for _ in range(300 if big else 36):
         cs.append(case_1d(rng, rng.choice(sizes_small), rng.choice([8, 15, 25]), units=rng.choice([None, None, "all", "some"]), extra_pu=0.15, save=0.12, tags=("save-function",)))
